@@ -187,8 +187,18 @@ impl MScriptFile {
 
         log::trace!("[add_export({})] Exporting {name:?} = {var:?}", &self.path);
 
-        view.update_once(name, var)
-            .context("Double export: name is already exported")?;
+        // the constructor of a class that is declared inside a function or a loop body is
+        // registered again each time control reaches the declaration
+        let same_function_again = matches!(
+            (view.get(&name).map(|old| old.primitive().clone()), var.primitive().clone()),
+            (Some(Primitive::Function(ref old)), Primitive::Function(ref new)) if old.location() == new.location()
+        );
+
+        let registered = view.update_once(name, var);
+
+        if !same_function_again {
+            registered.context("Double export: name is already exported")?;
+        }
 
         log::trace!("[add_export({})] exports = {view}", &self.path);
 
